@@ -33,6 +33,10 @@ type Ctx struct {
 	Violations          []Violation
 	Known               map[string]int // finding id -> occurrences
 	Infra               []string
+	// AsIs: the next ValidateTrace calls judge by the AS-IS variant of the token game (known
+	// deviations of the pinned implementation modelled as behaviour); used only to tell a
+	// known finding from a new violation, never for a check's own accept decision
+	AsIs bool
 }
 
 type Violation struct {
@@ -156,6 +160,9 @@ func (c *Ctx) ValidateTrace(module string, ps []*prog.Program, runs map[int][]dr
 		p := ps[progOf(r)]
 		for _, rec := range filter(p, runs[r]) {
 			rec.Run = r
+			if rec.Ev == "init" {
+				rec.Ok = c.AsIs
+			}
 			if rec.Flows == nil {
 				rec.Flows = []string{}
 			}
